@@ -256,6 +256,8 @@ def workload(ctx, repo):
         v = k % 10
         if v < 6:     # near pair
             y = gen.rand_year(rng, -3000, 11000)
+            if k % 50 == 3:
+                y = gen.huge_year(rng)
             base = gen.rand_rd(rng, mode, y, bias=0.7) * 86400 + \
                 rng.choice((0, 0, 86399, 1, rng.randrange(86400)))
             a = gen.tp_from_instant(rng, mode, base)
